@@ -19,6 +19,7 @@ QUICK = {
     'io': ['plain', 'mode', 'defaults', 'required', 'alias'],
     'mode': ['mode', 'required'],
     'modereq': ['mode'],
+    'final': ['plain'],
     'aliaserr': ['plain', 'alias'],
     'deps': ['plain', 'required', 'alias'],
     'onerr': ['plain', 'policy', 'required', 'defaults'],
